@@ -96,6 +96,13 @@ def run(module, cfg, workers=8, simulate=None, depth=None, seed=None, env=None, 
             k = m.group(1)
             t, g = int(m.group(3)), int(m.group(4))
             a = r.coverage.get(k, (0, 0)); r.coverage[k] = (a[0] + t, a[1] + g)
+    # counterexample (if any): the "State n:" blocks
+    if "Error:" in p.stdout:
+        i = p.stdout.find("Error:")
+        j = p.stdout.find("The coverage statistics", i)
+        r.cex = p.stdout[i:(j if j > 0 else i + 20000)][:20000]
+    else:
+        r.cex = ""
     if simulate and r.generated == 0:
         m = re.search(r"(\d+) states checked", p.stdout)
         if m:
